@@ -77,6 +77,11 @@ func textUnits(tid int, ascii bool) []uint16 {
 		if ascii {
 			s = "Buro c"
 		}
+	case 10: // begins with U+FEFF (an ordinary BMP code point in UTF-16BE text, not a byte order mark to be eaten)
+		s = "\uFEFFzw"
+		if ascii {
+			s = "Bzw"
+		}
 	case 9: // ends in a supplementary-plane character: the last two units are a surrogate pair
 		s = "xy😀"
 		if ascii {
@@ -115,7 +120,7 @@ func textUnits(tid int, ascii bool) []uint16 {
 
 func unitsToString(u []uint16) string { return string(utf16.Decode(u)) }
 
-var tagSigs = map[string]string{"desc": "desc", "t1": "cprt", "t2": "wtpt", "t3": "chad"}
+var tagSigs = map[string]string{"desc": "desc", "t1": "cprt", "t2": "wtpt", "t3": "dscm"}
 
 func sigFor(name string) string {
 	if s, ok := tagSigs[name]; ok {
@@ -167,12 +172,12 @@ func seededProfiles(n int, seed int64) [][]byte {
 		gaps := []int{rng.Intn(4), rng.Intn(4), rng.Intn(4), rng.Intn(4)}
 		var d aDesc
 		if rng.Intn(4) == 0 {
-			d = aDesc{Kind: "v2", Tid: 1 + rng.Intn(9), Recs: []aRec{}, Place: "table", RecSize: 12}
+			d = aDesc{Kind: "v2", Tid: 1 + rng.Intn(10), Recs: []aRec{}, Place: "table", RecSize: 12}
 		} else {
 			nr := 1 + rng.Intn(40)
 			d = aDesc{Kind: "mluc", Place: places[rng.Intn(len(places))], RecSize: 12 + 4*rng.Intn(3)}
 			for r := 0; r < nr; r++ {
-				tid := 1 + rng.Intn(9)
+				tid := 1 + rng.Intn(10)
 				if tid == 5 && rng.Intn(3) != 0 {
 					tid = 1 + rng.Intn(4)
 				}
@@ -182,7 +187,7 @@ func seededProfiles(n int, seed int64) [][]byte {
 		p := aProfile{Tags: tags, NBlocks: nb, Order: order, Gaps: gaps, Desc: d}
 		// candidate identities, used only to NAME what was observed (TLC judges)
 		var cands [][2]int
-		tl := []int{0, 5, 0, 3, 3, 2000, 6, 3, 600, 4}
+		tl := []int{0, 5, 0, 3, 3, 2000, 6, 3, 600, 4, 3}
 		if d.Kind == "v2" {
 			cands = append(cands, [2]int{d.Tid, tl[d.Tid]})
 		} else {
@@ -209,6 +214,16 @@ func seededProfiles(n int, seed int64) [][]byte {
 	return out
 }
 
+// descBlockShared reports whether data block b (1-based) is the description's block.
+func descBlockShared(p aProfile, b int) bool {
+	for _, t := range p.Tags {
+		if t.Sig == "desc" && t.Block == b {
+			return true
+		}
+	}
+	return false
+}
+
 func buildProfile(p aProfile, variant int) []byte {
 	blocks := make([]gen.ICCBlock, p.NBlocks)
 	for b := 0; b < p.NBlocks; b++ {
@@ -224,7 +239,12 @@ func buildProfile(p aProfile, variant int) []byte {
 	if hasDesc {
 		if p.Desc.Kind == "v2" {
 			hdr[8], hdr[9] = 2, 0x40
-			blocks[0].Data = gen.TextDesc(unitsToString(textUnits(p.Desc.Tid, true)))
+			ascii := unitsToString(textUnits(p.Desc.Tid, true))
+			if variant%2 == 1 { // with a Unicode form that says something else: the description is the ASCII form
+				blocks[0].Data = gen.TextDescFull(ascii, "Unicode form – "+ascii+" (anders)")
+			} else {
+				blocks[0].Data = gen.TextDesc(ascii)
+			}
 		} else {
 			recs := make([]gen.MlucRec, len(p.Desc.Recs))
 			for i, r := range p.Desc.Recs {
@@ -236,6 +256,11 @@ func buildProfile(p aProfile, variant int) []byte {
 	tags := make([]gen.ICCTag, len(p.Tags))
 	for i, t := range p.Tags {
 		tags[i] = gen.ICCTag{Sig: sigFor(t.Sig), Block: t.Block - 1}
+		// "t3" is Apple's private 'dscm' tag: when it has a data block of its own, that block holds a
+		// well-formed multi-localised name that is NOT the description
+		if t.Sig == "t3" && t.Block-1 > 0 && !(hasDesc && descBlockShared(p, t.Block)) {
+			blocks[t.Block-1].Data, _ = gen.Mluc([]gen.MlucRec{{Lang: "en", Country: "US", Text: "A private localised name"}}, "table", 12)
+		}
 	}
 	order := make([]int, len(p.Order))
 	for i, o := range p.Order {
@@ -251,7 +276,7 @@ func projectDesc(p aProfile, allowed [][2]int, s string, derr error) [2]int {
 	}
 	ascii := p.Desc.Kind == "v2"
 	match := func(c [2]int) bool {
-		if c[0] < 1 || c[0] > 9 {
+		if c[0] < 1 || c[0] > 10 {
 			return false
 		}
 		u := textUnits(c[0], ascii)
@@ -265,7 +290,7 @@ func projectDesc(p aProfile, allowed [][2]int, s string, derr error) [2]int {
 			return c
 		}
 	}
-	for tid := 1; tid <= 9; tid++ {
+	for tid := 1; tid <= 10; tid++ {
 		u := textUnits(tid, ascii)
 		if match([2]int{tid, len(u)}) {
 			return [2]int{tid, len(u)}
